@@ -75,11 +75,12 @@ extern int mpt_stream_sync(MPT_STRUCT(stream) *srm, size_t idlen, const MPT_STRU
 			if (timeout > 0) {
 				timeout = 0;
 			}
-			if ((ret = mpt_queue_recv(&srm->_rd))) {
+			if ((ret = mpt_queue_recv(&srm->_rd)) < 0) {
 				return ret;
 			}
-			if (ret) {
-				break;
+			/* no complete message yet */
+			if (!ret) {
+				continue;
 			}
 		}
 		/* remove processed data */
@@ -89,9 +90,9 @@ extern int mpt_stream_sync(MPT_STRUCT(stream) *srm, size_t idlen, const MPT_STRU
 		mpt_message_get(&srm->_rd.data, srm->_rd._state.data.pos, srm->_rd._state.data.msg, &msg, &vec);
 		
 		/* consume/create message id */
-		mpt_message_read(&msg, idlen, buf);
 		/* no return type message */
-		if (!(buf[0] & 0x80)) {
+		if (mpt_message_read(&msg, idlen, buf) < idlen
+		    || !(buf[0] & 0x80)) {
 			return MPT_MESGERR(ActiveInput);
 		}
 		buf[0] &= 0x7f;
@@ -111,8 +112,11 @@ extern int mpt_stream_sync(MPT_STRUCT(stream) *srm, size_t idlen, const MPT_STRU
 			ret = mc->cmd(mc->arg, &msg);
 		}
 		else {
-			continue;
+			ret = 0;
 		}
+		/* message is processed: advance input */
+		(void) mpt_queue_recv(&srm->_rd);
+		
 		if (ret < 0) {
 			break;
 		}
